@@ -24,6 +24,8 @@ Inductive stmt :=
 | Local (x:nat) (q:qual)               (* local x <q> = 0 *)
 | Assign (x:nat)                       (* x = 1 *)
 | Use (x:nat)                          (* sink(x) *)
+| AssignF (x:nat)                      (* #[x]# = 1 : the Id node carries a forced symbol (aster.value of a Symbol) *)
+| UseF (x:nat)                         (* sink(#[x]#) *)
 | Func (f:nat) (ps:list nat) (b:block) (* local function f(ps) b end *)
 | Call (f:nat) (n:nat)                 (* f(1,..,n) *)
 | Do (b:block)
@@ -181,12 +183,12 @@ Definition param_env (fd:nat) (ps:list nat) (e:env) : env :=
 
 Fixpoint rname_stmt (fd:nat) (e:env) (s:stmt) {struct s} : bool :=
   match s with
-  | Assign x =>
+  | Assign x | AssignF x =>
     match lookup x e with
     | Some y => visible_ok fd y && match sar y, sq y with None, QVar => true | _, _ => false end
     | None => false
     end
-  | Use x => match lookup x e with Some y => visible_ok fd y | None => false end
+  | Use x | UseF x => match lookup x e with Some y => visible_ok fd y | None => false end
   | Call f n =>
     match lookup f e with
     | Some y => match sar y with Some a => Nat.leb n a | None => false end
@@ -247,8 +249,26 @@ Definition id_errs (ch:list nscope) (id x:nat) : errs * option sym :=
   | Some y => (if accessible ch y then [] else [(id, KUpvalue)], Some y)
   end.
 
+(* visitors.Id with attr.forcesymbol (Id nodes built by aster.value for a Symbol interpolated by the
+   preprocessor): no name lookup - the interpolation already produced the symbol, or nil for an unknown
+   name - then the SAME accessibility check, which stands after the lookup branch (scraped) *)
+Definition forced_errs (ch:list nscope) (id x:nat) : errs * option sym :=
+  match chain_lookup x ch with
+  | None => ([(id, KUndeclared)], None)
+  | Some y => (if gen_upvalue_check_covers_forced_symbols
+               then (if accessible ch y then [] else [(id, KUpvalue)]) else [], Some y)
+  end.
+
+Definition const_errs (id:nat) (oy:option sym) : errs :=
+  match oy with
+  | Some y => match sar y, sq y with None, QVar => [] | _, _ => [(id, KConstAssign)] end
+  | None => []
+  end.
+
 Fixpoint aname_stmt (ch:list nscope) (id:nat) (s:stmt) {struct s} : errs :=
   match s with
+  | AssignF x => let (e1, oy) := forced_errs ch id x in e1 ++ const_errs id oy
+  | UseF x => fst (forced_errs ch id x)
   | Assign x =>
     let (e1, oy) := id_errs ch id x in
     e1 ++ match oy with
